@@ -3626,7 +3626,7 @@ class DecVar(Vars):
             msg += f'{solution.solver} solution status: {solution.status}.'
             raise RuntimeError(msg)
 
-        var_sol = dro_model.ro_model.rc_model.vars[1].get()
+        var_sol = dro_model.var_const.get()
         edict = event_dict(self.event_adapt)
         if rvar is None:
             outputs = []
